@@ -16,6 +16,8 @@ import ALV.Lemmas.C03Periodic
 import ALV.Lemmas.C03PRun
 import ALV.Lemmas.C03PTotalRun
 import ALV.Lemmas.C03Counts
+import ALV.Lemmas.C03Call
+import ALV.Lemmas.C03X
 import ALV.Common.Audit
 
 namespace ALV.Props.C03
@@ -472,6 +474,272 @@ example : (HOp.op (.new (.list [1, 2])) : HOp Int).Fin ∧ (HOp.edit 0 .clear : 
 /-- the counts: `rint` rounds x.5 away from zero, `round` to even -/
 example : takeMode (.flt (5/2)) = .n 3 ∧ roundHalfEven (5/2) = 2 ∧ roundHalfEven (7/2) = 4
     ∧ takeMode .nan = .n 0 ∧ takeMode (.int (-2)) = .n 0 ∧ takeMode .ninf = .n 0 := by decide +kernel
+
+/-! ### the call layer: spellings of counts, omitted arguments, argument lists, refused calls
+
+`crun` runs a history of *calls* (`Call`, Model/C03Call.lean): each call is elaborated as the code
+handles its arguments (`elabCall`) into an operation of the history model, or is refused without
+touching anything. -/
+
+/-- **C03.8 (histories of calls, finite sources)** every history of calls — counts spelled as int,
+bool, float, Fraction, ±inf, nan, None, something that is no number, or omitted; `Stream(...)` /
+`append(...)` with no, one or several arguments, iterables, scalars, both; `thub` / `tee` with any
+`n` — refines the list model: with enough fuel every observation (return values, exceptions) and the
+caller's containers at the end are the list model's. -/
+theorem call_refines (cs : List (Call α)) (hfin : ∀ c, c ∈ cs → c.Fin) :
+    ∃ F, ∀ f, F ≤ f → crun f HSt.empty cs = cspecRun ⟨[], []⟩ cs :=
+  crun_refines_from rel_empty [] cs hfin
+
+/-- **C03.8a (histories of calls, every source)** whenever the model terminates at every step. -/
+theorem call_refines_periodic (cs : List (Call α)) (f : Nat)
+    (hterm : ∀ o, o ∈ (crun f (HSt.empty : HSt α) cs).1 → o ≠ none) :
+    crun f (HSt.empty : HSt α) cs = cspecRun ⟨[], []⟩ cs :=
+  crun_sound_from prel_empty f [] cs hterm
+
+/-- **C03.9 (a failed call leaves no trace, list model)** after a call that raises — IndexError of an
+exhausted hub, StopIteration of `take()` at the end, TypeError / ValueError / OverflowError of a bad
+count or a bad argument list, AttributeError of `hub.take`, a missing object — every Stream denotes
+what it denoted, and every hub distributes the sequence it distributed, with the same number of uses
+or (when the failing method had built `Stream(hub)` first) one fewer. -/
+theorem failed_call_no_trace {s s' : HSp α} {c : Call α} {e : String}
+    (h : cspecStep s c = some (s', .err e)) :
+    ∀ j : Nat, (∀ x, s.sp[j]? = some (SObj.stream x) → s'.sp[j]? = some (SObj.stream x)) ∧
+      (∀ x u, s.sp[j]? = some (SObj.hub x u) → ∃ u', u' ≤ u ∧ u ≤ u' + 1 ∧ s'.sp[j]? = some (SObj.hub x u')) :=
+  cspecStep_err_keeps h
+
+/-- **C03.9a (a failed operation leaves no trace, heap model)** on every reachable state over finite
+sources: when an operation raises, every Stream of the pool still yields exactly the remaining
+sequence it would have yielded. -/
+theorem failed_op_no_trace {E : List (List α)} {st : St α} {sp : SPool α} (R : Rel E st sp) (op : Op α)
+    (hop : op.Fin) :
+    ∃ E' F st' o, (∀ f, F ≤ f → step f st op = some (st', o)) ∧
+      ∀ e, o = .err e → ∀ (j : Nat) (it : It α), st.pool[j]? = some (Obj.stream it) →
+        ∃ it', st'.pool[j]? = some (Obj.stream it') ∧ den E' it' = den E it := by
+  obtain ⟨E', F, st', sp', o, S⟩ := ALV.C03.step_refines R op hop
+  refine ⟨E', F, st', o, S.run, fun e he j it hit => ?_⟩
+  subst he
+  have K := specStep_err_keeps S.spec
+  cases R.lookup j with
+  | missing hp hq => rw [hp] at hit; cases hit
+  | dead hp hq => rw [hp] at hit; cases hit
+  | hub us q hp hq ok => rw [hp] at hit; cases hit
+  | stream it0 hp hq ok =>
+    rw [hp] at hit; cases hit
+    have hq2 := (K j).1 _ hq
+    cases S.rel.lookup j with
+    | missing hp' hq' => rw [hq'] at hq2; cases hq2
+    | dead hp' hq' => rw [hq'] at hq2; cases hq2
+    | hub us q hp' hq' ok' => rw [hq'] at hq2; cases hq2
+    | stream it' hp' hq' ok' =>
+      rw [hq'] at hq2
+      injection hq2 with e1; injection e1 with e2; injection e2 with e3
+      exact ⟨it', hp', e3⟩
+
+/-- **C03.9b** a refused call (`elabCall c = .ret o`: a missing / ill-typed argument, a Fraction or an
+int beyond `sys.maxsize` given to `take`, `Stream()`, `Stream([1], 2)`, `tee(x, 0)`, `tee(5, 3)`) changes
+no Stream, no hub, no tee buffer of the heap model. -/
+theorem refused_call_state (f : Nat) (s : HSt α) (c : Call α) (o : Obs α) (h : elabCall c = .ret o) :
+    ∃ s', cstep f s c = some (s', o) ∧ s'.st = s.st :=
+  ⟨⟨s.st, keep s.lists o⟩, by simp [cstep, h], rfl⟩
+
+/-- **C03.10a (defaults)** `take()` is `take(None)`, `peek()` is `peek(None)`: the next item outside any
+container; `skip()` / `limit()` without a count are refused (TypeError); `tee(x)` is `tee(x, 2)`. -/
+theorem call_defaults (i : Nat) (d : CArg α) :
+    elabCall (.take i .omitted : Call α) = elabCall (.take i (.given .none)) ∧
+    elabCall (.peek i .omitted : Call α) = elabCall (.peek i (.given .none)) ∧
+    elabCall (.take i .omitted : Call α) = .hop (.op (.take i .none)) ∧
+    elabCall (.skip i .omitted : Call α) = .ret (.err "TypeError") ∧
+    elabCall (.limit i .omitted : Call α) = .ret (.err "TypeError") ∧
+    elabCall (.tee d none) = elabCall (.tee d (some (.int 2))) := ⟨rfl, rfl, rfl, rfl, rfl, rfl⟩
+
+/-- **C03.10b (bool is an int)** `True` / `False` as a count are `1` / `0`, for every method. -/
+theorem count_bool (i : Nat) (b : Bool) :
+    elabCall (.take i (.given (.bool b)) : Call α) = .hop (.op (.take i (.int (if b then 1 else 0)))) ∧
+    elabCall (.peek i (.given (.bool b)) : Call α) = .hop (.op (.peek i (.int (if b then 1 else 0)))) ∧
+    elabCall (.skip i (.given (.bool b)) : Call α) = .hop (.op (.skip i (.int (if b then 1 else 0)))) ∧
+    elabCall (.limit i (.given (.bool b)) : Call α) = .hop (.op (.limit i (.int (if b then 1 else 0)))) := by
+  refine ⟨rfl, rfl, rfl, ?_⟩
+  cases b <;> simp [elabCall, elabLimit, spellRound, roundedOf, maxsize]
+
+/-- **C03.10c (Fraction)** `skip` / `limit` round a Fraction as they round a float of the same value
+(half to even); `take` / `peek` refuse a non-negative Fraction (the ValueError of `itertools.islice`:
+nothing is consumed) and take nothing for a negative one. -/
+theorem count_fraction (i : Nat) (x : Rat) :
+    elabCall (.skip i (.given (.frac x)) : Call α) = elabCall (.skip i (.given (.flt x))) ∧
+    elabCall (.limit i (.given (.frac x)) : Call α) = elabCall (.limit i (.given (.flt x))) ∧
+    roundCount (spellRound (.frac x)) = .ok (roundHalfEven x).toNat ∧
+    (0 ≤ x → elabCall (.take i (.given (.frac x)) : Call α) = .ret (.err "ValueError")) ∧
+    (x < 0 → elabCall (.take i (.given (.frac x)) : Call α) = .hop (.op (.take i (.int 0)))) := by
+  refine ⟨rfl, rfl, rfl, fun h => ?_, fun h => ?_⟩
+  · have : ¬ x < 0 := by grind
+    simp [elabCall, elabTake, this, withCnt]
+  · simp [elabCall, elabTake, h, withCnt]
+
+/-- **C03.10d (exactly on a tie)** for a float count `k + 0.5`: `take` / `peek` (`rint`) go away from
+zero, to `k + 1` — for even and odd `k`; `skip` / `limit` (`round`) go to the even neighbour. -/
+theorem count_ties (k : Nat) :
+    takeMode (.flt ((k : Int) + 1/2)) = .n (k + 1) ∧
+    ∃ r : Int, roundCount (.flt ((k : Int) + 1/2)) = .ok r.toNat ∧ r % 2 = 0 ∧ (r = k ∨ r = k + 1) := by
+  constructor
+  · have hpos : ((k : Int) : Rat) + 1/2 > 0 := by
+      have : (0 : Rat) ≤ ((k : Int) : Rat) := by exact_mod_cast Int.natCast_nonneg k
+      grind
+    rw [takeMode_flt_pos _ hpos, rint_tie]
+    congr 1
+  · obtain ⟨h1, h2⟩ := round_tie (k : Int)
+    exact ⟨_, rfl, h1, h2⟩
+
+/-- **C03.10e (the argument list of `Stream(...)` / `append(...)`)** no argument: TypeError; one
+iterable: its items; one scalar: that scalar for ever; several iterables: one after the other;
+several scalars: that period for ever; both kinds: TypeError. -/
+theorem stream_args (xs ys : List α) (v w : α) :
+    elabArgs ([] : List (CArg α)) = .error "TypeError" ∧
+    elabArgs [.lst xs] = .ok (.list xs) ∧ elabArgs [.scalar v] = .ok (.const v) ∧
+    elabArgs [.lst xs, .lst ys] = .ok (.chain [xs, ys]) ∧
+    elabArgs [.scalar v, .scalar w] = .ok (.cyc [v, w]) ∧
+    elabArgs [.lst xs, .scalar v] = .error "TypeError" ∧ elabArgs [.scalar v, .lst xs] = .error "TypeError" :=
+  ⟨rfl, rfl, rfl, rfl, rfl, rfl, rfl⟩
+
+/-- **C03.10f** the sequences these sources denote in the list model. -/
+theorem stream_args_denote (xs ys : List α) (v w : α) :
+    srcSeq (.chain [xs, ys]) = ⟨xs ++ ys, []⟩ ∧ srcSeq (.cyc [v, w]) = ⟨[], [v, w]⟩ ∧
+    srcSeq (.const v) = ⟨[], [v]⟩ ∧ srcSeq (.list xs) = ⟨xs, []⟩ := by
+  simp [srcSeq]
+
+/-- **C03.10g (`thub` / `tee` of a non-iterable, any `n`)** `thub(c, n)` is `c` whatever `n` is;
+`tee(c, n)` is `n` times `c` (none for `n <= 0`); `tee(x, 0)` of a Stream / hub is `()` and takes
+nothing from it. -/
+theorem noniter_any_n (f : Nat) (s : HSt α) (v : α) (n : NSpell) (k : Nat) (j : Nat) :
+    cstep f s (.thub (.scalar v) n) = some (s, .const v) ∧
+    elabCall (.tee (.scalar v) (some (.int k)) : Call α) = .ret (.items (List.replicate k v)) ∧
+    elabCall (.tee (.obj j) (some (.int 0)) : Call α) = .ret (.news []) := by
+  refine ⟨?_, by simp [elabCall, NSpell.toInt?], by simp [elabCall, NSpell.toInt?]⟩
+  simp [cstep, elabCall, hstep, stepKeep, step, keep]
+
+/-- non-vacuity: a history of calls with a failing call in the middle of everything: a Fraction to
+    take, `append()` without arguments, `limit` beyond `sys.maxsize` on a hub (loses a use), `Stream()`,
+    `thub(s, -1)`; then every live Stream still yields what the list model says -/
+example :
+    let cs : List (Call Int) :=
+      [.stream [.lst [1, 2, 3, 4, 5, 6]], .take 0 (.given (.frac (5/2))), .take 0 (.given (.bool true)),
+       .append 0 [], .skip 0 (.given (.frac (3/2))), .peek 0 .omitted, .stream [], .stream [.lst [1], .scalar 2],
+       .thub (.obj 0) (.int (-1)), .thub (.obj 0) (.int 2), .limit 1 (.given (.int 9223372036854775808)),
+       .tee (.obj 1) (some (.int 0)), .tee (.scalar 7) none, .take 0 (.given .other),
+       .stream [.lst [0], .obj 1, .lst [9]], .plain (.op (.drain 3)), .stream [.obj 1]]
+    let obs : List (Option (Obs Int)) :=
+      [some (.new 0), some (.err "ValueError"), some (.items [1]), some (.err "TypeError"), some .unit,
+       some (.item 4), some (.err "TypeError"), some (.err "TypeError"), some (.err "ValueError"),
+       some (.new 1), some (.err "ValueError"), some (.news []), some (.items [7, 7]), some (.err "TypeError"),
+       some (.new 3), some (.items [0, 4, 5, 6, 9]), some (.err "IndexError")]
+    (crun 12 (HSt.empty : HSt Int) cs).1 = obs ∧ (cspecRun (⟨[], []⟩ : HSp Int) cs).1 = obs := by
+  exact ⟨by decide +kernel, by decide +kernel⟩
+example : (Call.take 0 (.given (.bool true)) : Call Int).Fin ∧ (Call.stream [.lst [1], .lst [2]] : Call Int).Fin ∧
+    (Call.stream [] : Call Int).Fin := by
+  refine ⟨fun h he => ?_, fun h he => ?_, fun h he => ?_⟩
+  · simp [elabCall, elabTake, withCnt] at he; subst he; trivial
+  · simp [elabCall, elabArgs, listsOf, CArg.iterable] at he; subst he; trivial
+  · simp [elabCall, elabArgs] at he
+/-- the ties: `take(0.5) = take(1)`, `take(2.5) = take(3)`, `skip(0.5) = skip(0)`, `skip(1.5) = skip(2)`,
+    `skip(2.5) = skip(2)`; `-0.0` and negative floats take / skip nothing -/
+example : takeMode (.flt (1/2)) = .n 1 ∧ takeMode (.flt (5/2)) = .n 3 ∧ takeMode (.flt (3/2)) = .n 2
+    ∧ roundHalfEven (1/2) = 0 ∧ roundHalfEven (3/2) = 2 ∧ roundHalfEven (5/2) = 2
+    ∧ (roundHalfEven (-1/2)).toNat = 0 ∧ (roundHalfEven (-3/2)).toNat = 0 ∧ takeMode (.flt 0) = .n 0
+    ∧ takeMode (.flt (-5/2)) = .n 0 := by decide +kernel
+
+/-! ### element functions and sources that raise in the middle of a stream (Model/C03X.lean)
+
+`xnext` has three outcomes (item / StopIteration / another exception); `map`, `filter`, `chain`, `tee` go
+on after an exception (so do `s.attr` / `s(...)`: a `map` object), `islice` (`limit`) and the generator of `skip`
+are finished by it;
+`take(n)` raises it and the Stream goes on behind the raising position.  The list model becomes a list
+of *events* (`Ev`: an item or the exception raised at that position). -/
+
+/-- **C03.11a (`next` with exceptions)** on every iterator built from raising sources, `map` / `filter` /
+`chain` / `islice` / `skipper` wrappers (no tee leaves): whenever `next` returns, it delivers the
+head event of the denotation — the item, the exception, or StopIteration for the empty one — touches no
+tee buffer and leaves an iterator denoting the tail.  In particular after an exception the following
+`next` goes on with the next event of the (wrapper-specific: `mapE`, `filterE`, `limE`, `skipE`)
+event list. -/
+theorem raise_next {f : Nat} {h h' : XHeap α} {it it' : XIt α} {r : Res α} (ht : it.teeFree = true)
+    (hx : xnext f h it = some (h', it', r)) :
+    h' = h ∧ it'.teeFree = true ∧
+      (match r with
+        | .stop => xden it = [] ∧ xden it' = []
+        | .item v => xden it = .ok v :: xden it'
+        | .raise e => xden it = .error e :: xden it') := by
+  obtain ⟨a, b, c⟩ := xnext_sound f h it h' it' r ht hx
+  refine ⟨a, b, ?_⟩
+  cases r <;> exact c
+
+/-- **C03.11b (`take` with exceptions)** `take(n)` / `take()` / `take(inf)`: whenever it returns, it returns
+`specTakeX` of the events: the first `n` items when none of the first `n` events raises, otherwise the
+first exception — and then the Stream goes on right behind the raising position (the items pulled
+before it are lost). -/
+theorem raise_take {f : Nat} {h : XHeap α} {it : XIt α} {c : Cnt} {h' : XHeap α} {it' : XIt α} {o : Obs α}
+    (ht : it.teeFree = true) (hx : xtakeIt f h it c = some (h', it', o)) :
+    h' = h ∧ it'.teeFree = true ∧ specTakeX (xden it) c = (xden it', o) := xtakeIt_sound ht hx
+
+/-- **C03.11c (histories with exceptions, no copies)** for every history of new / take / next / list() /
+skip / limit / append / map / filter / `s.attr` over sources and element functions that raise anywhere,
+of any length: whenever the model terminates at every step, the whole list of observations is the one
+of the event-list model. -/
+theorem raise_history (ops : List (XOp α)) (f : Nat) (hops : ∀ op, op ∈ ops → op.teeFree = true)
+    (hterm : ∀ o, o ∈ xrun f (XSt.empty : XSt α) ops → o ≠ none) :
+    xrun f (XSt.empty : XSt α) ops = xspecRun [] ops :=
+  xrun_sound f ops XSt.empty (fun _ h => by simp [XSt.empty] at h) hops hterm
+
+/-- **C03.11d (nothing raises: the list model)** on sequences without raising positions and with element
+functions that never raise, the event functions are the list functions of the list model: `map`,
+`filter`, `take` / `limit`, `drop` / `skip`; `take(n)` returns the first `n` items and leaves the rest. -/
+theorem raise_free_is_list_model (f : α → α) (p : α → Bool) (n : Nat) (xs : List α) :
+    mapE (fun v => .ok (f v)) (okList xs) = okList (xs.map f) ∧
+    filterE (fun v => .ok (p v)) (okList xs) = okList (xs.filter p) ∧
+    limE n (okList xs) = okList (xs.take n) ∧ skipE n (okList xs) = okList (xs.drop n) ∧
+    takeE n (okList xs) = (.ok (xs.take n), okList (xs.drop n)) :=
+  ⟨mapE_ok f xs, filterE_ok p xs, limE_ok n xs, skipE_ok n xs, takeE_ok n xs⟩
+
+/-- **C03.11e (tee does not store an exception)** an exception coming out of the source of a tee is
+handed to the copy that asked; buffer and position of that copy are unchanged, only the source has moved
+on — so every other copy (and the Stream itself after a `peek`) goes straight to the next item. -/
+theorem raise_tee_once {f : Nat} {h h' : XHeap α} {k : Nat} {parent p' : XIt α} {buf : List α} {e : String}
+    (hk : h[k]? = some ⟨parent, buf⟩) (hp : xnext f h parent = some (h', p', .raise e)) :
+    xnext (f + 1) h (.tee k buf.length) = some (h'.set k ⟨p', buf⟩, .tee k buf.length, .raise e) :=
+  tee_raise_not_stored hk hp
+
+-- PENDING: the history-level statement with copies.  Because `tee` delivers an exception to one copy
+-- only, copies are not independent event lists; the specification needs a shared set of exceptions
+-- already delivered (each raising position of a source fires once).  `xrun` (model) is tied to the real
+-- code on such histories; the refinement to that specification is not proved.
+def raise_history_with_copies_PENDING : Prop :=
+  ∀ (ops : List (XOp Int)) (f : Nat), (∀ o, o ∈ xrun f (XSt.empty : XSt Int) ops → o ≠ none) →
+    ∃ spec : List (XOp Int) → List (Option (Obs Int)), xrun f (XSt.empty : XSt Int) ops = spec ops
+
+/-- non-vacuity: `map` goes on after the exception, `take(5)` raises and the Stream goes on behind the
+    raising position; `limit` and `skip` are finished by it; `s.attr` goes on -/
+example :
+    let boom : Int → Ev Int := fun x => if x = 3 then .error "ValueError" else .ok (x * 10)
+    let ops : List (XOp Int) :=
+      [.new [.ok 1, .ok 2, .ok 3, .ok 4, .ok 5], .map 0 boom, .take 0 (.int 5), .drain 0,
+       .new [.ok 1, .ok 2, .ok 3, .ok 4, .ok 5], .map 1 boom, .limit 1 4, .take 1 (.int 9), .drain 1,
+       .new [.ok 1, .error "KeyError", .ok 3, .ok 4], .skip 2 1, .next 2, .next 2,
+       .new [.ok 1, .ok 2, .ok 3, .ok 4], .map 3 boom, .attr 3 (fun x => .ok x), .take 4 (.int 2), .next 4, .next 4]
+    let obs : List (Option (Obs Int)) :=
+      [some (.new 0), some .unit, some (.err "ValueError"), some (.items [40, 50]),
+       some (.new 1), some .unit, some .unit, some (.err "ValueError"), some (.items []),
+       some (.new 2), some .unit, some (.err "KeyError"), some (.err "StopIteration"),
+       some (.new 3), some .unit, some (.new 4), some (.items [10, 20]), some (.err "ValueError"),
+       some (.item 40)]
+    xrun 9 (XSt.empty : XSt Int) ops = obs ∧ xspecRun [] ops = obs ∧ (∀ op, op ∈ ops → op.teeFree = true) := by
+  refine ⟨by decide +kernel, by decide +kernel, by simp [XOp.teeFree]⟩
+/-- `peek` that raises: the Stream itself loses nothing but the raising position; a copy made before sees
+    neither the exception (delivered once) nor a gap in the items -/
+example :
+    let boom : Int → Ev Int := fun x => if x = 3 then .error "ValueError" else .ok (x * 10)
+    xrun 9 (XSt.empty : XSt Int)
+      [.new [.ok 1, .ok 2, .ok 3, .ok 4, .ok 5], .map 0 boom, .copy 0, .peek 0 (.int 5), .take 0 (.int 2), .next 0,
+       .drain 1]
+    = [some (.new 0), some .unit, some (.new 1), some (.err "ValueError"), some (.items [10, 20]), some (.item 40),
+       some (.items [10, 20, 40, 50])] := by decide +kernel
 
 end ALV.Props.C03
 
